@@ -20,9 +20,9 @@ structure StyledView where
   fa : Rect             -- `fill_area().bounding_box()`
   sa : Rect             -- `stroke_area().bounding_box()`
 
-def parseOptColor (s : String) : Option Color := if s == "-" then none else some (parseNat s)
+private def parseOptColor (s : String) : Option Color := if s == "-" then none else some (parseNat s)
 
-def alignOf : Nat → StrokeAlignment | 0 => .inside | 1 => .center | _ => .outside
+private def alignOf : Nat → StrokeAlignment | 0 => .inside | 1 => .center | _ => .outside
 
 /-- style tokens: `fill stroke width align`. -/
 def Toks.style (t : Toks) : Style × Toks :=
